@@ -419,6 +419,9 @@ func (ps *specParser) primary() SExpr {
 	switch t.k {
 	case "id":
 		switch t.s {
+		case "forall", "exists", "let":
+			ps.p--
+			return ps.expr()
 		case "true", "false":
 			return &SLit{"bool", t.s}
 		case "nil":
